@@ -107,13 +107,16 @@ def observe(spec, inp):
                 out["rep"] = [{str(a): int(b) for a, b in r[0].items()} for r in res]
             else:
                 prios = {k: inp["p_%s" % k] for k in spec["prio_keys"]}
+                more = [{spec["prio_keys"][-1]: 2 + j} for j in range(spec.get("nprio", 1) - 1)]
+                out["nreq"] = 1 + len(more)
                 if part == "select":
                     P = m1.ge_polyhedron
-                    res = list(P.select(dict(prios), solver=solver))
+                    res = list(P.select(dict(prios), *map(dict, more), solver=solver))
                     out["rep"] = [{str(a): int(b) for a, b in r[0].items()} for r in res]
-                    out["exp_obj"] = [[int(v) for v in o] for o in P._vectors_from_prios([dict(prios)])]
+                    # one request at a time through the same code path gives the reference objectives
+                    out["exp_obj"] = [[int(v) for v in P._vectors_from_prios([dict(q)])[0]] for q in [prios] + more]
                 else:
-                    res = list(m1.select(dict(prios), solver=solver, only_leafs=spec["only_leafs"]))
+                    res = list(m1.select(dict(prios), *map(dict, more), solver=solver, only_leafs=spec["only_leafs"]))
                     out["rep"] = [{str(a): int(b) for a, b in (r if spec["only_leafs"] else r[0]).items()} for r in res]
             out["raised"] = None
         except n.pnd.InfeasibleError:
@@ -173,6 +176,8 @@ def judge(spec, inp, out, ob):
     elif part == "select":
         if got["objs"] != out["exp_obj"]:
             bad.append("objective received %s expected %s" % (got["objs"], out["exp_obj"]))
+    if part != "solve" and len(out["rep"]) != out.get("nreq", 1):
+        bad.append("%d requests but %d answers reported" % (out.get("nreq", 1), len(out["rep"])))
     for k, rep in enumerate(out["rep"]):
         if spec["answer"] == "none":
             if rep != {}:
